@@ -286,14 +286,15 @@ Lemma hip_files_absolute pkg a pin pout : wf_abs pin = true -> wf_abs pout = tru
   hip_files pkg [a; to_str pin; to_str pout] = {| h_input := to_str pin; h_report := to_str pout |}.
 Proof. intros Wi Wo. unfold hip_files. cbn [nth nth_error]. now rewrite !absolute_fixed. Qed.
 
-Lemma hip_entry_points_agree (hrun : string -> hsim) cwd pkg pkg' pin pout :
+Lemma hip_entry_points_agree (hrun : string -> hsim) cwd cwd' pkg pkg' pin pout :
   wf_abs pin = true -> wf_abs pout = true ->
-  hip_script hrun cwd pkg (to_str pin) (Some (to_str pout)) true = hip_client hrun pkg' (to_str pin) (to_str pout) true
+  hip_script hrun cwd pkg (to_str pin) (Some (to_str pout)) true = hip_client hrun cwd' pkg' (to_str pin) (to_str pout) true
   /\ (forall rep, hrun (fs_canon (to_str pin)) = HOk rep ->
         hip_script hrun cwd pkg (to_str pin) (Some (to_str pout)) true
         = {| ho_raises := false; ho_report_at := Some (to_str pout); ho_text := Some rep |}).
 Proof.
-  intros Wi Wo. unfold hip_script, hip_client, hip_main. rewrite !hip_files_absolute by assumption. cbn [h_input h_report].
+  intros Wi Wo. unfold hip_script, hip_client, hip_client_of, hip_main. rewrite (absolute_fixed cwd' pin Wi).
+  rewrite !hip_files_absolute by assumption. cbn [h_input h_report].
   split; [destruct (hrun (fs_canon (to_str pin))); reflexivity|]. intros rep ->. reflexivity.
 Qed.
 
@@ -334,5 +335,32 @@ Qed.
 Lemma hip_exit_counterexample :
   exists (hrun : string -> hsim), forall cwd pkg inp out,
     hip_status (hip_script hrun cwd pkg inp out false) = 0%Z /\ ho_report_at (hip_script hrun cwd pkg inp out false) = None
-    /\ ho_raises (hip_client hrun pkg inp "/tmp/r.out" false) = true.
+    /\ ho_raises (hip_client hrun cwd pkg inp "/tmp/r.out" false) = true.
 Proof. exists (fun _ => HOk "report"). intros. repeat split. Qed.
+
+(* ------------------------------------------------------------------ the input file the clients read (fix fa4a753) *)
+Lemma input_file_agrees cwd pkg pkg' inp out out' :
+  wf_abs (parse cwd) = true ->
+  input_file pkg (cli_argv cwd inp out) = absolute cwd inp /\ input_file pkg' (client_argv cwd inp out') = absolute cwd inp.
+Proof. intros W. unfold input_file, cli_argv, client_argv. cbn [nth]. now rewrite !absolute_absolute. Qed.
+
+Lemma input_file_pinned_counterexample :
+  exists cwd pkg inp out, wf_abs (parse cwd) = true /\ wf_abs (parse pkg) = true /\
+    input_file pkg (client_argv_pinned inp out) <> absolute cwd inp /\ input_file pkg (client_argv_pinned inp out) = "/pkg/in.txt".
+Proof. exists "/w", "/pkg", "in.txt", "/tmp/o.out". repeat split; vm_compute; congruence. Qed.
+
+Lemma hip_client_relative (hrun : string -> hsim) cwd cwd' pkg pkg' inp pout :
+  wf_abs (parse cwd) = true -> wf_abs pout = true ->
+  hip_client hrun cwd pkg inp (to_str pout) true = hip_client hrun cwd' pkg' (absolute cwd inp) (to_str pout) true
+  /\ h_input (hip_files pkg [""; absolute cwd inp; to_str pout]) = absolute cwd inp.
+Proof.
+  intros W Wo. assert (Wj : wf_abs (join (parse cwd) (parse inp)) = true) by now apply join_wf.
+  unfold hip_client. rewrite (absolute_absolute cwd' cwd inp W).
+  change (absolute cwd inp) with (to_str (join (parse cwd) (parse inp))).
+  unfold hip_client_of, hip_main. rewrite !hip_files_absolute by assumption. split; reflexivity.
+Qed.
+
+Lemma hip_client_pinned_counterexample :
+  exists (hrun : string -> hsim) cwd pkg inp out,
+    ho_raises (hip_client hrun cwd pkg inp out true) = false /\ ho_raises (hip_client_pinned hrun pkg inp out true) = true.
+Proof. exists (fun p => if String.eqb p "/w/in.txt" then HOk "r" else HFail), "/w", "/pkg", "in.txt", "/tmp/o.out". split; reflexivity. Qed.
